@@ -6,7 +6,9 @@ import (
 	"fmt"
 	"go/token"
 	"go/types"
+	"regexp"
 	"sort"
+	"strconv"
 	"strings"
 
 	"golang.org/x/tools/go/ssa"
@@ -49,6 +51,19 @@ func (x *Exec) callCommon(st *State, fr *Frame, cc *ssa.CallCommon, args []Val, 
 		// nil interface receiver panics
 		x.emit(st, "safety:nil-iface-call", "safety", fmt.Sprintf("(not (= (i_tag %s) 0))", fv.Term), nil, pos)
 		st.assume(fmt.Sprintf("(not (= (i_tag %s) 0))", fv.Term))
+		// the dynamic type of the receiver is known (the value was boxed on this path): the call is static
+		if callee, recv, ok := x.devirtualize(fv, cc); ok {
+			ckey := funcKey(callee)
+			all := append([]Val{recv}, args...)
+			if con := x.Lib.Funcs[ckey]; con != nil {
+				x.contractCall(st, fr, con, callee, cc, all, in, k)
+				return
+			}
+			if _, inRepo := x.P.Funcs[ckey]; inRepo && callee.Blocks != nil {
+				x.inlineCall(st, fr, callee, all, nil, in, k)
+				return
+			}
+		}
 		if con := x.Lib.Funcs[key]; con != nil {
 			x.contractCall(st, fr, con, nil, cc, append([]Val{fv}, args...), in, k)
 			return
@@ -68,7 +83,7 @@ func (x *Exec) callCommon(st *State, fr *Frame, cc *ssa.CallCommon, args []Val, 
 			return
 		}
 		x.emit(st, "safety:nil-func-call", "safety", fmt.Sprintf("(not (= %s 0))", fv.Term), nil, pos)
-		key := "funcvalue " + cc.Value.Type().String()
+		key := funcValueKey(cc.Value.Type())
 		if con := x.Lib.Funcs[key]; con != nil {
 			x.contractCall(st, fr, con, nil, cc, args, in, k)
 			return
@@ -104,6 +119,34 @@ func (x *Exec) callCommon(st *State, fr *Frame, cc *ssa.CallCommon, args []Val, 
 		return
 	}
 	x.opaqueCall(st, key, cc, args, k)
+}
+
+var mkIfaceRe = regexp.MustCompile(`^\(mkIface (\d+) (.+)\)$`)
+
+func (x *Exec) devirtualize(fv Val, cc *ssa.CallCommon) (*ssa.Function, Val, bool) {
+	m := mkIfaceRe.FindStringSubmatch(fv.Term)
+	if m == nil {
+		return nil, Val{}, false
+	}
+	id, _ := strconv.Atoi(m[1])
+	if id < 1 || id > len(x.C.typeByID) {
+		return nil, Val{}, false
+	}
+	t := x.C.typeByID[id-1]
+	sel := types.NewMethodSet(t).Lookup(cc.Method.Pkg(), cc.Method.Name())
+	if sel == nil {
+		return nil, Val{}, false
+	}
+	callee := x.P.Prog.MethodValue(sel)
+	if callee == nil || callee.Synthetic != "" {
+		return nil, Val{}, false
+	}
+	payload := m[2]
+	if s := x.C.sortOf(t); s != "Int" {
+		_, unbox := x.C.boxFuncs(s)
+		payload = fmt.Sprintf("(%s %s)", unbox, payload)
+	}
+	return callee, Val{T: t, Term: payload}, true
 }
 
 // opaqueCall: no model and no contract. Results are arbitrary, effects unknown (class A).
